@@ -53,6 +53,7 @@ Definition manual : list (string * string * N * N * cover) := [
   ("proto/streams/streams.rs", "recv_reset", 3%N, 1%N, Residual "state.recv_reset always closes (C17_state_recv_reset_surfaces) - the assert restates it across two modules");
   ("proto/streams/streams.rs", "send_reset", 1%N, 1%N, Residual "send_reset with Initiator::User never returns the library-error-limit error: only the Library initiator consults the limit");
   ("proto/streams/streams.rs", "drop_stream_ref", 0%N, 1%N, Poisoned);
+  ("proto/streams/streams.rs", "clear_recv_buffer", 0%N, 1%N, Poisoned);
   ("proto/streams/streams.rs", "send_reset", 4%N, 5%N, Residual "max_local_error_resets() is Some whenever can_inc_num_local_error_resets() was false");
   ("proto/streams/streams.rs", "reset_on_recv_stream_err", 4%N, 1%N, Residual "max_local_error_resets() is Some whenever can_inc_num_local_error_resets() was false");
   ("proto/streams/recv.rs", "new", 5%N, 1%N, Infallible "constants: the default window fits a Window");
